@@ -93,7 +93,9 @@ def check_cfg(ctx, fx, cfg):
         adts={"core::result::Result": "Res"}, bools={"is_err", "is_ok"}, fut_types=[("core::pin::Pin<&mut F>", "userfut")])
     seen = set()
     for f in tcs:
-        api = (f.get("parent") or "").split("::")[-1]
+        crs = timers.creations(fx, f)
+        # the public timer API this coroutine belongs to: the function that creates the future
+        api = crs[0].api["def"].split("::")[-1] if len({c.api["def"] for c in crs}) == 1 else (f.get("parent") or "").split("::")[-1]
         seen.add(api)
         inst = "%s@%s" % (api, cfg)
         if api not in PERIODIC + ONESHOT:
@@ -121,10 +123,10 @@ def check_cfg(ctx, fx, cfg):
                 src_ok = False
                 if ok:
                     idx = next(iter(rs)).site
-                    for _bi, _si, st in agg_sites(pb, ak="coroutine"):
-                        if st["r"]["def"] == f["def"]:
-                            prs = roots(pb, st["r"]["ops"][idx])
-                            src_ok = all(r.kind == "arg" for r in prs) and all(pb.locals[r.site]["ty"] == "core::time::Duration" for r in prs)
+                    src_ok = bool(crs)
+                    for cr in crs:
+                        prs = roots(cr.body, cr.caps[idx]) if idx in cr.caps else set()
+                        src_ok = src_ok and bool(prs) and all(r.kind == "arg" for r in prs) and all(cr.body.locals[r.site]["ty"] == "core::time::Duration" for r in prs)
                 ctx.require(ok and src_ok, "R10.2", "duration:%s@%s" % (api, cfg), "the timer must sleep for exactly the duration it was given: sleep argument roots %s" % sorted(map(str, rs)), fn=f["def"], site=t["l"])
             if is_submit(t):
                 # submits through the weak sender captured from the API function, which made it from the context itself
@@ -133,13 +135,15 @@ def check_cfg(ctx, fx, cfg):
                 src_ok = False
                 if ok:
                     idx = next(iter(rs)).site
-                    for _bi, _si, st in agg_sites(pb, ak="coroutine"):
-                        if st["r"]["def"] == f["def"]:
-                            for o in pb.origins(st["r"]["ops"][idx]):
-                                if o.kind == "call":
-                                    ct = pb.call_at(o)
-                                    if ct.get("callee") == "context::Context::<A>::weak_sender" and all(r.kind == "arg" for r in roots(pb, ct["args"][0])):
-                                        src_ok = True
+                    src_ok = bool(crs)
+                    for cr in crs:
+                        one = False
+                        for o in (cr.body.origins(cr.caps[idx]) if idx in cr.caps else ()):
+                            if o.kind == "call":
+                                ct = cr.body.call_at(o)
+                                if ct.get("callee") == "context::Context::<A>::weak_sender" and all(r.kind == "arg" for r in roots(cr.body, ct["args"][0])):
+                                    one = True
+                        src_ok = src_ok and one
                 ctx.require(ok and src_ok, "R10.3", "self-weak-sender:%s@%s" % (api, cfg), "the timer must submit through a weak sender of its own context", fn=f["def"], site=t["l"])
     ctx.require(set(PERIODIC + ONESHOT) <= seen, "R10.1", "api-set@" + cfg, "timer APIs missing: %s" % sorted(set(PERIODIC + ONESHOT) - seen), detail=sorted(seen))
     # R10.2 per-runtime sleep
